@@ -360,6 +360,16 @@ type dirExpect struct {
 	// nothing but the endpoint is asserted.  PeerNoStart: the other direction has NoStart.
 	NoStart     bool
 	PeerNoStart bool
+	// Midstream: the whole handshake (SYN, SYN+ACK, third ACK) of the connection
+	// is not in the capture.  An observer cannot know where the streams start,
+	// so only when EVERY data byte of both directions is in the capture is the
+	// stream asserted (it then is exactly what was sent, whatever the order of
+	// the captured segments: "locally reordered segments"); which endpoint fq
+	// calls client is not asserted (it is the sender of the first packet seen).
+	Midstream bool
+	// MidFinFirst: Midstream and the FIN of this direction arrives before one
+	// of its data segments
+	MidFinFirst bool
 	// FragOpts: a datagram of this direction that carries IPv4 options was fragmented
 	FragOpts bool
 	// FragCoincide: a fragmented datagram of this direction is completed by a
@@ -370,6 +380,9 @@ type dirExpect struct {
 type connExpect struct {
 	Conn int
 	Dir  [2]dirExpect
+	// Optional: no handshake and no payload byte in the capture: there is no
+	// stream to reconstruct, whether fq lists the connection is not asserted
+	Optional bool
 }
 
 type reasmExpect struct {
@@ -486,8 +499,24 @@ func (cv *conv) expect() expectation {
 			de.Wrap = uint64(c.isn(d))+2+uint64(len(sent)) > 1<<32
 			ce.Dir[d] = de
 		}
+		synSeen, synackSeen := false, false
 		for si, s := range cv.segs {
-			if s.Conn == ci && s.Kind == "synack" && !captured[si] {
+			if s.Conn == ci && s.Kind == "syn" && captured[si] {
+				synSeen = true
+			}
+			if s.Conn == ci && s.Kind == "synack" && captured[si] {
+				synackSeen = true
+			}
+		}
+		if !synSeen && !synackSeen {
+			ce.Dir[0].Midstream, ce.Dir[1].Midstream = true, true
+			if ce.Dir[0].Lossy || ce.Dir[1].Lossy {
+				ce.Dir[0].NoStart, ce.Dir[1].NoStart = true, true
+			}
+			ce.Optional = len(ce.Dir[0].Sent) == 0 && len(ce.Dir[1].Sent) == 0
+		}
+		for si, s := range cv.segs {
+			if synSeen && s.Conn == ci && s.Kind == "synack" && !captured[si] {
 				ce.Dir[1].NoStart = true
 				ce.Dir[0].PeerNoStart = true
 			}
@@ -520,6 +549,18 @@ func (cv *conv) expect() expectation {
 				}
 				if !peerBetween {
 					ce.Dir[d].AfterFins = true
+				}
+			}
+		}
+		// no handshake and the FIN of a direction arrives before one of its data
+		// segments: the FIN is the first thing seen of the direction
+		for d := 0; d < 2; d++ {
+			if !ce.Dir[d].Midstream || finPos[d] < 0 {
+				continue
+			}
+			for si, s := range cv.segs {
+				if s.Conn == ci && s.Dir == d && s.Len > 0 && captured[si] && arrival[si] > finPos[d] {
+					ce.Dir[d].MidFinFirst = true
 				}
 			}
 		}
